@@ -134,7 +134,7 @@ func cacheKey(query string, tag string) string {
 
 // Discharge decides one obligation.
 func Discharge(o *Obligation, st *Symtab, cfg *SolverCfg) {
-	if o.Solver == "simplifier" {
+	if o.Solver == "simplifier" || o.Solver == "static-analysis" {
 		return
 	}
 	query := o.Query(st)
@@ -182,9 +182,28 @@ func Discharge(o *Obligation, st *Symtab, cfg *SolverCfg) {
 		}
 		return
 	}
+	// stage 0: light context. Dropping assumptions is sound for proving; most safety goals
+	// need only the small facts of the path, not the (large, quantified) invariant instances.
+	if o.rawQuery == "" && len(o.Assume) > 8 {
+		var light []Term
+		for _, a := range o.Assume {
+			if len(a.S) <= 1500 && !strings.Contains(a.S, "(forall") && !strings.Contains(a.S, "(exists") {
+				light = append(light, a)
+			}
+		}
+		if len(light) < len(o.Assume) {
+			lo := &Obligation{Assume: light, Goal: o.Goal}
+			r0, _, d0 := runSolver(ctx, "z3-new", lo.Query(st), 2*time.Second, false)
+			o.TimeS += d0
+			if r0 == "unsat" {
+				o.Result, o.Solver = "unsat", "z3-new(light)"
+				return
+			}
+		}
+	}
 	// stage 1
 	res, out, dur := runSolver(ctx, "z3-new", query, cfg.QuickTimeout, true)
-	o.TimeS = dur
+	o.TimeS += dur
 	if res == "unsat" || res == "sat" {
 		o.Result, o.Solver = res, "z3-new"
 		if res == "sat" {
